@@ -205,7 +205,7 @@ def leg_kill_sweep(cases, flavour, max_points=40, jobs=8):
         # thread (DRIVE_WORKER): strace keeps `when=N` per thread, so N = 1..(calls of the operation on
         # that thread) reaches every mutating system call of the operation and nothing else.
         res = []
-        W = {"DRIVE_WORKER": "1"}
+        W = {"DRIVE_WORKER": "1", "BLOCKING_MAX_THREADS": "1", "DRIVE_BLOCKING_THREADS": "1"}
         tmpl = os.path.join(C.scratch_root(), f"kill-tmpl{next(E._counter)}")
         rs = T.run_traced(flavour, case["setup"], scratch=tmpl)
         try:
@@ -418,7 +418,7 @@ def leg_observer_sweep(flavour, tier, jobs=8):
     (times masked): anything else is a result no sequential order of the two operations produces."""
     failures, samples = [], []
     points, states = 0, set()
-    W = {"DRIVE_WORKER": "1"}
+    W = {"DRIVE_WORKER": "1", "BLOCKING_MAX_THREADS": "1", "DRIVE_BLOCKING_THREADS": "1"}
 
     def norm_obs(line):
         return _OBS_TIME.sub("time=T", E.norm(line))
@@ -492,6 +492,8 @@ def interference_cases():
             {"name": f"write/{vf}", "setup": warm, "victim": w_oneshot(vf, "sha256", k, V),
              "interferers": [f"remove_hash {i_f} c0 {sV}", f"remove {i_f} c0 {hx(k)}", w_oneshot(i_f, "sha256", k, V2),
                              w_oneshot(i_f, "sha256", k2, V), f"write_hash {i_f} c0 sha256 {hx(V)}"], "observers": obs},
+            {"name": f"rewrite/{vf}", "setup": warm + [w_oneshot("s", "sha256", k2, V)], "victim": w_oneshot(vf, "sha256", k, V),
+             "interferers": [f"remove_hash {i_f} c0 {sV}"], "observers": obs},
             {"name": f"write-hash/{vf}", "setup": warm, "victim": f"write_hash {vf} c0 sha256 {hx(V)}",
              "interferers": [f"remove_hash {i_f} c0 {sV}", w_oneshot(i_f, "sha256", k2, V), f"write_hash {i_f} c0 sha256 {hx(V)}"], "observers": obs},
             {"name": f"remove/{vf}", "setup": warm, "victim": f"remove {vf} c0 {hx(k)}",
@@ -511,7 +513,7 @@ def leg_pause_interfere(flavour, tier, jobs=8):
     (times masked).  A check-then-act on the content area or the index shows here as an answer no order produces."""
     failures, samples = [], []
     points, states = 0, set()
-    W = {"DRIVE_WORKER": "1"}
+    W = {"DRIVE_WORKER": "1", "BLOCKING_MAX_THREADS": "1", "DRIVE_BLOCKING_THREADS": "1"}
 
     def norm_obs(line):
         return _OBS_TIME.sub("time=T", re.sub(r" @now=\d+", "", E.norm(line)))
@@ -604,7 +606,7 @@ def leg_fault_injection(cases, flavour, tier, jobs=8):
     compared = 0
 
     ALLNAMES = sum((c.split(",") for c in FAULT_CALLS), [])
-    WORKER = {"DRIVE_WORKER": "1"}
+    WORKER = {"DRIVE_WORKER": "1", "BLOCKING_MAX_THREADS": "1", "DRIVE_BLOCKING_THREADS": "1"}
 
     def run_case(case):
         # The setup runs in a process of its own; the victim alone runs under injection, its op loop on
@@ -808,7 +810,7 @@ def leg_writer_faults(flavour, tier, jobs=8):
     the key is not mapped to it; nothing panics or hangs; no temp file stays."""
     failures, classes, samples = [], set(), []
     injections = 0
-    WORKER = {"DRIVE_WORKER": "1"}
+    WORKER = {"DRIVE_WORKER": "1", "BLOCKING_MAX_THREADS": "1", "DRIVE_BLOCKING_THREADS": "1"}
     ALLNAMES = sum((c.split(",") for c in WRITER_FAULT_CALLS), [])
 
     def run_case(case):
